@@ -277,8 +277,15 @@ func (st *Stack) EnableCtrlREST() error {
 	if st.ctrlLn != nil {
 		return nil
 	}
-	st.CtrlIP = nodeIP(st.slot, 200)
-	ln, err := net.Listen("tcp", st.CtrlIP+":9501")
+	// (another check running at the same time may sit on the same /24: try a few addresses)
+	var ln net.Listener
+	var err error
+	for k := 200; k < 210; k++ {
+		st.CtrlIP = nodeIP(st.slot, k)
+		if ln, err = net.Listen("tcp", st.CtrlIP+":9501"); err == nil {
+			break
+		}
+	}
 	if err != nil {
 		return err
 	}
